@@ -69,6 +69,7 @@ type Cfg struct {
 	Caps2    []string `json:"caps2"`
 	Logger   string   `json:"logger"` // capture (default), std, json
 	Fallback bool     `json:"fallback"`
+	Redial   bool     `json:"redial"` // dial with TLS policy none first, then set the policy of the scenario and run the operation
 	Big      bool     `json:"-"` // attachments larger than every buffer on the way (content stalls)
 }
 
@@ -762,6 +763,8 @@ func (rn *Runner) Run() {
 			mail.WithTLSConfig(&tls.Config{ServerName: "mail.example.test", MinVersion: tls.VersionTLS12})}
 	} else if cfg.Fallback {
 		opts = append(opts, mail.WithTLSPortPolicy(policy)) // 587 with fallback to 25 when opportunistic
+	} else if cfg.Redial {
+		opts = append(opts, mail.WithTLSPolicy(mail.NoTLS)) // the policy of the scenario is set after the first dial
 	} else {
 		opts = append(opts, mail.WithTLSPolicy(policy))
 	}
@@ -827,6 +830,19 @@ func (rn *Runner) Run() {
 			"nerrs", countJoined(inner), "msgs", res, "text", clip(err))
 	}
 
+	if cfg.Redial { // a first dial under policy none, then the configuration changes
+		r.Emit("setpolicy", "policy", "none")
+		r.Emit("call", "op", "Dial")
+		var derr error
+		el := rn.timed(func() { derr = c.DialWithContext(context.Background()) })
+		r.Emit("ret", "op", "Dial", "err", derr != nil, "elapsed", el, "text", clip(derr))
+		if derr != nil {
+			rn.Infra = fmt.Errorf("the fault-free first dial failed: %w", derr)
+			return
+		}
+		c.SetTLSPolicy(policy)
+		r.Emit("setpolicy", "policy", cfg.Policy)
+	}
 	switch cfg.Op {
 	case "RawAuth": // the smtp package used directly: NewClient, Auth with its lazy EHLO, Quit
 		r.Emit("call", "op", "RawAuth")
